@@ -318,6 +318,10 @@ impl SecondaryStorage {
     pub(super) async fn drop_table_inner(&self, table_id: TableRefId) -> StorageResult<()> {
         let mut changeset = vec![];
 
+        // The catalog is updated before the DROP is logged: a concurrent CREATE TABLE of the same
+        // name must not be logged in between (replay would see the name twice).
+        let _ddl_guard = self.create_table_lock.lock().await;
+
         // Exclude a concurrent compaction (or DELETE) of this table: it would replace the
         // row-sets listed below between the pin and the commit, and the stale DeleteRowSet
         // entries would then panic in the version manager.
